@@ -219,7 +219,23 @@ fn judge_text<'a, T: DiffableStr + ?Sized + std::fmt::Debug + 'a>(d: &'a TextDif
     let only_changes: Vec<similar::DiffOp> = d.ops().iter().filter(|o| !matches!(o, DiffOp::Equal { .. })).cloned().collect();
     let mut reversed: Vec<similar::DiffOp> = d.ops().to_vec();
     reversed.reverse();
-    for ops in [only_changes, reversed] {
+    // op lists containing ops that cover nothing: the zero-length Equal ops that grouping with
+    // radius 0 leaves at group edges (all groups concatenated), and zero-length ops of every kind
+    // interleaved with the real ones
+    let radius0: Vec<similar::DiffOp> = d.grouped_ops(0).concat();
+    let mut with_empties: Vec<similar::DiffOp> = vec![];
+    for (i, op) in d.ops().iter().enumerate() {
+        let (o, n) = (op.old_range().start, op.new_range().start);
+        match i % 4 {
+            0 => with_empties.push(DiffOp::Equal { old_index: o, new_index: n, len: 0 }),
+            1 => with_empties.push(DiffOp::Delete { old_index: o, old_len: 0, new_index: n }),
+            2 => with_empties.push(DiffOp::Insert { old_index: o, new_index: n, new_len: 0 }),
+            _ => {}
+        }
+        with_empties.push(*op);
+    }
+    with_empties.push(DiffOp::Equal { old_index: d.old_slices().len(), new_index: d.new_slices().len(), len: 0 });
+    for ops in [only_changes, reversed, radius0, with_empties] {
         let h = similar::udiff::UnifiedDiffHunk::new(ops.clone(), d, true);
         let got = flat(h.iter_changes());
         let mut want: Flat<T> = vec![];
@@ -301,7 +317,7 @@ impl Prop for C13 {
     type Case = Case;
     const ID: &'static str = "C13";
     fn rule() -> String {
-        "cases = Op(one op of any of the four kinds with arbitrary offsets/lengths, expanded against injectively valued sequences old[i]=i, new[j]=10^6+j so that any old/new or index mix-up changes a value) | Text(text diff, radius: whole-diff iteration and hunk iteration); enumeration of all ops with offsets and lengths in 0..4. Oracle: exact expected (tag, old_index, new_index, value) vector per kind; iter_slices items == item-wise expansion with 1 (Replace: 2) slices; a generated iterator-protocol script (mix of next()/nth(k)) walks the same expansion, size_hint brackets the remainder, count/last/step_by agree; iter_all_changes / UnifiedDiffHunk::iter_changes (hunks from iter_hunks and hunks built by hand from the changes only and from the reversed op list) == concatenation of per-op expansions and every value is the token at its index; apply_to_hook(Capture) reproduces the op; as_tag_tuple ranges. Non-trivial = old_index != new_index and (Replace) old_len != new_len, or a text diff with >= 2 ops; distinct = distinct serialized case.".into()
+        "cases = Op(one op of any of the four kinds with arbitrary offsets/lengths, expanded against injectively valued sequences old[i]=i, new[j]=10^6+j so that any old/new or index mix-up changes a value) | Text(text diff, radius: whole-diff iteration and hunk iteration); enumeration of all ops with offsets and lengths in 0..4. Oracle: exact expected (tag, old_index, new_index, value) vector per kind; iter_slices items == item-wise expansion with 1 (Replace: 2) slices; a generated iterator-protocol script (mix of next()/nth(k)) walks the same expansion, size_hint brackets the remainder, count/last/step_by agree; iter_all_changes / UnifiedDiffHunk::iter_changes (hunks from iter_hunks and hunks built by hand from the changes only, from the reversed op list, from all radius-0 groups concatenated (zero-length Equal ops in the middle) and from the op list interleaved with zero-length ops of every kind) == concatenation of per-op expansions and every value is the token at its index; apply_to_hook(Capture) reproduces the op; as_tag_tuple ranges. Non-trivial = old_index != new_index and (Replace) old_len != new_len, or a text diff with >= 2 ops; distinct = distinct serialized case.".into()
     }
     fn assumptions() -> Vec<String> {
         vec!["sequences are long enough for the op (in-bounds by construction)".into()]
